@@ -103,16 +103,20 @@ int main(int argc, char **argv) {
     if (A.has("families")) fams = vr::split(A.get("families"), ',');
     std::unique_ptr<vg::BlobUniverse> blob;
     if (A.has("grammar")) { auto t = vr::split(A.get("grammar"), ':'); blob.reset(new vg::BlobUniverse(atoi(t[1].c_str()), atoi(t[2].c_str()))); }
-    uint64_t total_units = blob ? blob->size() : fams.empty() ? vg::num_graphs(n) : fams.size();
+    uint64_t ngraphs = blob ? blob->size() : fams.empty() ? vg::num_graphs(n) : fams.size();
+    uint64_t wchunks = (uint64_t) A.geti("wchunks", 1);       // a unit is (graph, residue class of weightings): spreads one big graph over all workers
+    uint64_t total_units = ngraphs * wchunks;
     int max_m = (int) A.geti("max-m", 62), min_m = (int) A.geti("min-m", 0);
     int horton_above_dim = (int) A.geti("horton-above-dim", 15);
     uint64_t seed = (uint64_t) A.geti("seed", 0);
 
-    auto unit_graph = [&](uint64_t u) -> vg::EdgeList {
+    int orient_mode = (int) A.geti("orient", 0);
+    auto unit_graph0 = [&](uint64_t u) -> vg::EdgeList {
         // seed only rotates the enumeration order
-        uint64_t uu = (u + seed) % total_units;
+        uint64_t uu = ((u / wchunks) + seed) % ngraphs;
         return blob ? blob->build(uu) : fams.empty() ? vg::graph_from_mask(n, uu) : vg::family(fams[uu]);
     };
+    auto unit_graph = [&](uint64_t u) { vg::EdgeList g = unit_graph0(u); vg::orient(g, orient_mode); return g; };
     auto describe = [&](uint64_t u, uint64_t sub, uint64_t var) {
         vg::EdgeList el = unit_graph(u);
         std::vector<double> w; vg::weighting(alpha, el.m(), sub, w);
@@ -129,10 +133,10 @@ int main(int argc, char **argv) {
         std::vector<double> w;
         if (cfg.w_int) {
             vg::weighting(alpha, el.m(), 0, w); vb::Built<int> b(el, w);
-            for (uint64_t s = start_sub; s < nw; ++s) { vg::weighting(alpha, el.m(), s, w); R.count(C_INPUTS); if (dim >= 1) R.count(C_NONTRIV); run_case<int>(R, cfg, el, w, cyc, dim, u, s, b); }
+            for (uint64_t s = start_sub; s < nw; ++s) { if (R.expired()) break; if (s % wchunks != u % wchunks) continue; vg::weighting(alpha, el.m(), s, w); R.count(C_INPUTS); if (dim >= 1) R.count(C_NONTRIV); run_case<int>(R, cfg, el, w, cyc, dim, u, s, b); }
         } else {
             vg::weighting(alpha, el.m(), 0, w); vb::Built<double> b(el, w);
-            for (uint64_t s = start_sub; s < nw; ++s) { vg::weighting(alpha, el.m(), s, w); R.count(C_INPUTS); if (dim >= 1) R.count(C_NONTRIV); run_case<double>(R, cfg, el, w, cyc, dim, u, s, b); }
+            for (uint64_t s = start_sub; s < nw; ++s) { if (R.expired()) break; if (s % wchunks != u % wchunks) continue; vg::weighting(alpha, el.m(), s, w); R.count(C_INPUTS); if (dim >= 1) R.count(C_NONTRIV); run_case<double>(R, cfg, el, w, cyc, dim, u, s, b); }
         }
     };
     double t0 = vr::now_s();
